@@ -83,6 +83,15 @@ def handle (op : String) (args : List String) : Option (String × String) :=
     let r := serBigInt a
     let m := match deBigInt r.1 r.2.declared r.2.elems with | some x => "ok " ++ showBigInt x | none => "err"
     pure (m, "ok " ++ showBigInt (BigInt.ofInt a.val))
+  -- api-coverage: `Serialize for Sign` / `Deserialize for Sign` on their own
+  | "sign.ser", [s] => do
+    let sg ← (match s.toList with | [c] => parseSign c | _ => none)
+    pure ("ok i8:" ++ showInt (serSign sg),
+          "ok i8:" ++ showInt (match sg with | .minus => -1 | .nosign => 0 | .plus => 1))
+  | "sign.de", [v] => do
+    let v ← parseInt v
+    let sh : Option Sign → String := fun r => match r with | some s => "ok " ++ showSign s | none => "err"
+    pure (sh (deSign v), sh (oSign v))
   | _, _ => none
 
 end NB.Drv.C17
